@@ -114,7 +114,7 @@ Definition clear_slot (sl : option (list item)) (hr : heap * Z) : heap * Z :=
 
 Inductive unload_res :=
 | UNext (s : state)
-| ULast (s : state)        (* nothing left below: s is the state with the slots of the last context cleared *)
+| ULast (s : state)        (* nothing left below: s keeps the evaluation stack; slots and try stack are gone *)
 | UFault.
 
 Definition unload (ret_transfer : bool) (s : state) : unload_res :=
@@ -142,7 +142,10 @@ Definition unload (ret_transfer : bool) (s : state) : unload_res :=
           end
       | [] =>
           let hr := clear_slot (sc_static sc) (clear_slot (f_args f) (clear_slot (f_local f) (s_heap s, s_refs s))) in
-          ULast (mkState f sc [] [] (fst hr) (snd hr) (s_exc s) (s_gas s) (s_limit s) (s_base s))
+          (* the invocation stack is now empty: only the evaluation stack (the result) remains *)
+          ULast (mkState (mkFrame (f_ip f) None None [] (f_ret f))
+                         (mkScript (sc_prog sc) (sc_sid sc) None (sc_es sc) (sc_shared sc))
+                         [] [] (fst hr) (snd hr) (s_exc s) (s_gas s) (s_limit s) (s_base s))
       end
   end.
 
